@@ -12,6 +12,7 @@
   by the paired runs of `harness/props/c06.py`).
 -/
 import CTM.Lemmas.LevelLoop
+import CTM.Lemmas.LevelLoopElection
 
 namespace CTM.C06
 open CTM CTM.LevelLoop
@@ -140,5 +141,50 @@ example : ∀ out,
   fun out h => identical_cells exTree exTree exVote { chunkSize := 2, nProc := 2 } [7, 3, 9]
     [5, 1, 5] [1, 0] rfl exTree_wf (exVote_ok _) rfl
     (by decide) (by decide) (by decide) (by decide) out h 0 2 7 9 5 rfl rfl rfl rfl
+
+/-! ### "when every bootstrap iteration uses all marker genes (bootstrap factor 1)"
+
+Group C_election's model of `tally_votes` (`Election.tallyVotes`) takes the
+drawn subsets as a parameter; a drawn subset is accepted by `Numeric.subsetOk`
+(sorted, duplicate-free because of `replace=False`, inside `[0, n)`, of the
+bootstrap size).  The theorems below discharge the hypothesis the C06 theorems
+put on the oracle (a function of parent, children and the cell's vector, no
+RNG): at factor 1 the RNG cannot influence the tally. -/
+
+/-- with factor 1 every `rng.choice(marker_idx, n_bootstrap, replace=False)`
+draws `n` of the `n` markers (the float product `1.0 * n` is `n` exactly) -/
+theorem factor_one_draw_size (n : Nat) (hn : 0 < n) : Numeric.drawSize (n : Rat) n = .ok n :=
+  drawSize_factor_one n hn
+
+example : Numeric.drawSize ((7 : Nat) : Rat) 7 = .ok 7 := factor_one_draw_size 7 (by decide)
+
+/-- "the subset is forced": the only sorted duplicate-free subset of size `n`
+of the `n` marker indices is `0, 1, …, n-1` — all of them -/
+theorem full_subset_unique (n : Nat) (s : List Nat) (h : Numeric.subsetOk n n s = true) :
+    s = List.range n :=
+  LevelLoop.full_subset_unique n s h
+
+example : Numeric.subsetOk 4 4 [0, 1, 2, 3] = true := by decide
+
+/-- hence the tally of a cell (`tally_votes`: votes and correlation sums per
+reference leaf) is the same for ANY two sequences of legitimately drawn
+subsets with the same number of iterations: at factor 1 the vote under a
+parent is a function of the reference profiles of that parent's leaves and the
+cell's own vector only — the RNG drops out. -/
+theorem factor_one_rng_free (refs : List (List Rat)) (x : List Rat) (corrOf : Nat → Nat → Rat)
+    (n : Nat) (subsets subsets' : List (List Nat))
+    (h : ∀ s ∈ subsets, Numeric.subsetOk n n s = true)
+    (h' : ∀ s ∈ subsets', Numeric.subsetOk n n s = true)
+    (hlen : subsets.length = subsets'.length) :
+    Election.tallyVotes refs x subsets corrOf = Election.tallyVotes refs x subsets' corrOf := by
+  have e1 : subsets = List.replicate subsets.length (List.range n) :=
+    List.eq_replicate_iff.mpr ⟨rfl, fun s hs => LevelLoop.full_subset_unique n s (h s hs)⟩
+  have e2 : subsets' = List.replicate subsets'.length (List.range n) :=
+    List.eq_replicate_iff.mpr ⟨rfl, fun s hs => LevelLoop.full_subset_unique n s (h' s hs)⟩
+  rw [e1, e2, hlen]
+
+example : Election.tallyVotes [[1, 2, 3], [3, 1, 2]] [1, 5, 2] [[0, 1, 2], [0, 1, 2]] (fun _ _ => 1) =
+    Election.tallyVotes [[1, 2, 3], [3, 1, 2]] [1, 5, 2] (List.replicate 2 (List.range 3)) (fun _ _ => 1) :=
+  factor_one_rng_free _ _ _ 3 _ _ (by decide) (by decide) rfl
 
 end CTM.C06
